@@ -32,6 +32,7 @@ def cases(tier):
             yield {"variant": {"links": lk}, "n": 4, "tier": tier}
     yield {"kind": "fromitp", "tier": tier}
     yield {"kind": "sections", "tier": tier}
+    yield {"kind": "dsdna", "tier": tier}
 
 
 def canon_inter(sec, atoms, params, guard):
@@ -315,7 +316,52 @@ def check_sections(case):
     return dict(evals=evals, keys=keys, violations=viols[:20], stats={"inputs_sections": evals}, sample={"kind": "sections", "inputs": evals})
 
 
+DNA_NAMES = ["DA", "DT", "DG", "DC", "DA5", "DT5", "DG5", "DC5", "DA3", "DT3", "DG3", "DC3"]
+
+
+def check_dsdna(case):
+    """circular and linear DNA sequences completed to double strands (-dsdna): when no link is reported missing the residue
+    graph recovered from the written file is the requested one - two rings (circular) or two chains of n residues"""
+    import itertools, re
+    viols, evals, keys = [], 0, []
+    blocks = {nm: dict(nrexcl=1, atoms=[("BB", "D" + nm[1:], 0.0, 72.0, 1)], inter={}) for nm in DNA_NAMES}
+    links = [dict(resname=DNA_NAMES, inter={"bonds": [F.I(["BB", "+BB"], ["1", "0.3", "50"])]}),
+             dict(resname=DNA_NAMES, atoms={"BB": {}, ">BB": {}}, inter={"bonds": [F.I(["BB", ">BB"], ["1", "0.35", "10000"], {"edge": False, "group": "circle"})]},
+                  edges=[("BB", ">BB", {"linktype": "circle"})])]
+    ff_txt = F.render_ff(dict(blocks=blocks, links=links, mods={}))
+    warn = re.compile(r"Missing a link between residue")
+    for n in (3, 4, 5):
+        for seq in ("ACGTA"[:n], "GGCAT"[:n]):
+            for circ in (True, False):
+                evals += 1
+                case1 = dict(kind="dsdna1", seq=seq, circ=circ)
+                with H.tempdir() as d:
+                    r = H.run_gen_params(d, [("ff.ff", ff_txt)], seq_file_text=("s.ig", f"; DNA\nT1\n{seq}{2 if circ else 1}\n"), dsdna=True)
+                    if r["exc"] is not None:
+                        viols.append(crash_violation(r["exc"], case1, assertion="itp-written-for-accepted-input", tags=["dsdna"]))
+                        continue
+                    itp = H.read_itp_plain(r["itp_path"])
+                missing = [m for lvl, m, _ in r["logs"] if warn.search(m)]
+                res_of = {a["idx"]: a["resid"] for a in itp["atoms"]}
+                got = {tuple(sorted((res_of[int(t[0])], res_of[int(t[1])]))) for t, g in itp["inter"].get("bonds", []) if res_of[int(t[0])] != res_of[int(t[1])]}
+                want = {(k, k + 1) for k in range(1, n)} | {(n + k, n + k + 1) for k in range(1, n)}
+                if circ:
+                    want |= {(1, n), (n + 1, 2 * n)}
+                if len(itp["atoms"]) != 2 * n:
+                    viols.append(dict(assertion="reread-atoms-equal", tags=["dsdna"], message=f"{seq} circular={circ}: {len(itp['atoms'])} atoms for 2 x {n} residues", case=case1, detail={}))
+                elif not missing and got != want and len(viols) < 20:
+                    viols.append(dict(assertion="residue-graph-recovered-when-nothing-missing", tags=["dsdna"],
+                                      message=f"{seq} circular={circ} -dsdna: no link reported missing, residue pairs bonded in the file {sorted(got)}, requested {sorted(want)}", case=case1, detail={}))
+                keys.append(f"dsdna:{seq}:{circ}")
+    return dict(evals=evals, keys=keys, violations=viols, stats={"inputs_dsdna": evals}, sample=dict(kind="dsdna", inputs=evals))
+
+
 def run_case(case):
+    if case.get("kind") in ("dsdna", "dsdna1"):
+        out = check_dsdna(case)
+        if case["kind"] == "dsdna1":
+            out["violations"] = [v for v in out["violations"] if v["case"]["seq"] == case["seq"] and v["case"]["circ"] == case["circ"]]
+        return out
     if case.get("kind") == "fromitp":
         return check_fromitp(case)
     if case.get("kind") == "sections":
